@@ -339,6 +339,90 @@ fn new_session() -> Result<(Session, bool), String> {
     Ok((Session { ends: [c, s], net, accepted: [0, 0], delivered: [0, 0] }, same))
 }
 
+/// The responder speaks first: the initiator's handshake future is polled once (its message is on the wire), the
+/// responder's handshake runs to completion and the responder immediately writes and flushes `sizes` bytes in frames;
+/// only then the initiator's handshake is polled to completion and it reads until nothing is left. Returns
+/// (bytes written by the responder, bytes read by the initiator, all bytes as written, terminal reader state).
+fn early_session(sizes: &[usize]) -> Result<(usize, usize, bool, String), String> {
+    let net = Rc::new(RefCell::new(Net { handshake: true, dirs: [DirNet::default(), DirNet::default()] }));
+    let ctx = ctx::test_root(&ctx::RealClock);
+    let e0 = End { net: net.clone(), me: 0 };
+    let e1 = End { net: net.clone(), me: 1 };
+    let mut fc = Box::pin(NoiseStream::client_handshake(&ctx, e0));
+    let mut fs = Box::pin(NoiseStream::server_handshake(&ctx, e1));
+    let mut cx = Context::from_waker(Waker::noop());
+    if fc.as_mut().poll(&mut cx).is_ready() {
+        return Err("client handshake finished without the server".into());
+    }
+    let mut srv = None;
+    for _ in 0..1000 {
+        if let Poll::Ready(r) = fs.as_mut().poll(&mut cx) {
+            srv = Some(r.map_err(|e| format!("server handshake: {e:?}"))?);
+            break;
+        }
+    }
+    let mut srv = srv.ok_or("server handshake did not finish")?;
+    // the responder is in transport mode: it writes at once (the transport takes everything)
+    let mut written = 0usize;
+    for &sz in sizes {
+        let data: Vec<u8> = (0..sz).map(|i| pt(1, written + i)).collect();
+        let mut off = 0;
+        let mut guard = 0;
+        while off < data.len() && guard < 10_000 {
+            guard += 1;
+            match Pin::new(&mut srv).poll_write(&mut cx, &data[off..]) {
+                Poll::Ready(Ok(n)) => off += n,
+                Poll::Ready(Err(e)) => return Err(format!("early write: {e:?}")),
+                Poll::Pending => {}
+            }
+        }
+        written += off;
+        for _ in 0..1000 {
+            if Pin::new(&mut srv).poll_flush(&mut cx).is_ready() {
+                break;
+            }
+        }
+    }
+    let mut cli = None;
+    for _ in 0..1000 {
+        if let Poll::Ready(r) = fc.as_mut().poll(&mut cx) {
+            cli = Some(r.map_err(|e| format!("client handshake: {e:?}"))?);
+            break;
+        }
+    }
+    let mut cli = cli.ok_or("client handshake did not finish")?;
+    // keep the handshake-mode transport (it hands over whatever is on the wire); read until nothing is left
+    let mut got = 0usize;
+    let mut same = true;
+    let mut state = "pending".to_string();
+    for _ in 0..10_000 {
+        let mut store = vec![0u8; 100_000];
+        let mut rb = io::ReadBuf::new(&mut store);
+        match Pin::new(&mut cli).poll_read(&mut cx, &mut rb) {
+            Poll::Ready(Ok(())) => {
+                if rb.filled().is_empty() {
+                    state = "eof".into();
+                    break;
+                }
+                for (i, b) in rb.filled().iter().enumerate() {
+                    same &= *b == pt(1, got + i);
+                }
+                got += rb.filled().len();
+            }
+            Poll::Ready(Err(e)) => {
+                state = format!("err:{:?}", e.kind());
+                break;
+            }
+            Poll::Pending => {
+                state = "pending".into();
+                break;
+            }
+        }
+    }
+    drop(srv);
+    Ok((written, got, same, state))
+}
+
 fn parse_script(v: &Value) -> VecDeque<Ev> {
     v.as_array()
         .map(|a| {
@@ -1127,6 +1211,10 @@ impl Prop for C13 {
         for _ in 0..10 {
             g.fam_half_close();
         }
+        // the responder speaks first, right after its half of the handshake
+        for sizes in [vec![5u64], vec![10, 100, 1000], vec![70_000], vec![10, 100, 1000, 5, 70_000, 1, 65_519, 300], vec![65_519, 65_519], vec![1; 40]] {
+            g.ops.push(json!({"op": "early", "reset": true, "sizes": sizes}));
+        }
         if opts.thorough {
             g.fam_every_position(true);
         }
@@ -1186,6 +1274,27 @@ impl Prop for C13 {
             "flush" => self.write_like(op, out, "flush"),
             "shutdown" => self.write_like(op, out, "shutdown"),
             "read" => self.read(op, out),
+            "early" => {
+                let sizes: Vec<usize> = op["sizes"].as_array().map(|a| a.iter().map(|x| x.as_u64().unwrap_or(0) as usize).collect()).unwrap_or_default();
+                self.sess = None;
+                out.count("early_data_session");
+                match catch(|| early_session(&sizes)) {
+                    Ok(Ok((written, got, same, state))) => {
+                        if got != written || !same || state.starts_with("err") {
+                            out.oracle_fail("c13.early_data_lost", &format!("the responder wrote {written} bytes right after its handshake (all writes and flushes Ok); the initiator read {got} of them (content as written: {same}) and then saw {state}"), op.clone());
+                        }
+                        json!({"class": "early", "_written": written, "_read": got, "_state": state})
+                    }
+                    Ok(Err(e)) => {
+                        out.oracle_fail("harness/early", &e, op.clone());
+                        json!({"class": "early", "_err": e})
+                    }
+                    Err(site) => {
+                        out.oracle_fail(&site, "panic in a session whose responder speaks first", op.clone());
+                        json!({"panic": site})
+                    }
+                }
+            }
             "tamper" => self.tamper(op, out),
             "check" => self.check(op, out),
             _ => json!({"bad_op": true}),
